@@ -67,6 +67,8 @@ CLAUSE_PROPERTY = {
     "CM_Coherent": "C07",
     "CM_NoInf": "C11",
     "CM_BlobsVisible": "C07",
+    "CM_ScalarsRecorded": "C05",
+    "SW_SigmaBounds": None,
     "CallsExact": "C13",
     "TM_NearOne": "C12",
     "TM_ESS": "C12",
@@ -584,7 +586,11 @@ class Recorder:
     def _on_sweep(self, r):
         run = r["runner"]
         prop = [s[:4] for s in self.slots(r["u_prime"], r["x_prime"], r["logl_prime"], r["blobs_prime"])]
-        self._emit("Sweep", mask=[1 if m else 0 for m in np.asarray(r["mask"])], prop=prop,
+        sig = np.asarray(run.sigmas, dtype=float)
+        sig_ok = bool(np.all(np.isfinite(sig)))
+        if type(run).__name__ == "TPCNRunner":
+            sig_ok = sig_ok and bool(np.all(sig >= 0.0) and np.all(sig <= min(run.sigma_0, 0.99) + 1e-12))
+        self._emit("Sweep", sigmaOK=sig_ok, mask=[1 if m else 0 for m in np.asarray(r["mask"])], prop=prop,
                    slots=self.slots(run.u, run.x, run.logl, run.blobs, run.assignments), dEvals=self.evals - self._sweep_mark)
         self._sweep_mark = self.evals
 
@@ -635,7 +641,16 @@ class Recorder:
                     break
         elif cb is not None:
             blobs_ok = False
-        self._emit("Commit", batch=batch, histLen=T, keyLens=[len(H[k]) for k in recorded], prefixSame=bool(prefix_same), blobsOK=bool(blobs_ok))
+        # the scalars recorded for this iteration are the current ones (temperature, evidence, ESS, counters)
+        def _same(a, b):
+            try:
+                return bool(a == b or (a != a and b != b))
+            except Exception:
+                return False
+
+        scal_ok = all(len(H[k]) > 0 and _same(H[k][-1], cur.get(k)) for k in ("beta", "logz", "ess", "iter", "calls") if cur.get(k) is not None)
+        self._emit("Commit", batch=batch, histLen=T, keyLens=[len(H[k]) for k in recorded], prefixSame=bool(prefix_same), blobsOK=bool(blobs_ok),
+                   scalarsOK=bool(scal_ok))
 
     def _on_loop_exit(self, r):
         from tempest.tools import effective_sample_size
